@@ -107,10 +107,13 @@ InvalidCells(w) == {n \in 0..(FaceCount(w) - 1) : Invalid(w, n)}
 \* cell, not the vertex the ring starts at)
 Rot(P, s) == [k \in 1..Len(P) |-> P[((k - 1 + s) % Len(P)) + 1]]
 Rev(P) == [k \in 1..Len(P) |-> P[Len(P) + 1 - k]]
-SameRing(P, Q) ==
+SameRing0(P, Q) ==
   /\ Len(P) = Len(Q)
   /\ IF Len(P) = 0 THEN TRUE
      ELSE \E s \in 0..(Len(P) - 1) : Rot(P, s) = Q \/ Rot(Rev(P), s) = Q
+\* ... and up to consecutive repeated points (a synthesised ring may name a corner twice; libraries may or may not
+\* keep the repeat)
+SameRing(P, Q) == SameRing0(DedupRing(P), DedupRing(Q))
 
 \* ----------------------------------------------------------------- centres
 \* face centres as the convention defines them (coordinate variables), or
